@@ -5,8 +5,11 @@
    under the licensed re-layouts, and integer literal text denotes the same value with
    underscores / in another radix.  The parser half (redundant parentheses, `;;`, what the
    parser does with the stream) is explored by the observational tie only.
-   Two statements of the property are FALSE of the code; they are refuted below with their
-   witnesses and proved under explicit guards. *)
+   Two statements of the property were false of the code when this check was built (a comment
+   line before `else`; newline-separated statements of a block inside parentheses); both were
+   repaired in /repo (33a78fa, d14529d) and are now proved at full strength for the repaired
+   code: comment lines are irrelevant without a guard, and the depth guard of
+   explicit_semicolon_equiv now holds inside every { } block. *)
 From Aelys Require Import Base.Tactics Extracted.AsiTokens Model.Asi Model.Literal
                           Proofs.AsiProofs Proofs.LiteralProofs.
 Local Open Scope N_scope.
@@ -14,7 +17,7 @@ Local Open Scope N_scope.
 (* the model is written for the lookahead the source has today (regenerated on every run) *)
 Example C15_lookahead_shape :
   else_lookahead_skips_newline = true /\ else_lookahead_skips_blank = true
-  /\ else_lookahead_skips_comment = false.
+  /\ else_lookahead_skips_line_comment = true /\ else_lookahead_skips_block_comment = true.
 Proof. repeat split; reflexivity. Qed.
 
 (* extra blank lines (newlines and blanks after a newline) never change the token stream *)
@@ -45,45 +48,29 @@ Theorem C15_newline_inside_parens_ignored : forall l1 l2,
   asi (l1 ++ NL :: l2) = asi (l1 ++ l2).
 Proof. exact newline_in_parens_lemma. Qed.
 
-(* ---- added line comments.  The unguarded statement
-        forall l1 l2, asi (l1 ++ NL :: LineComment :: NL :: l2) = asi (l1 ++ NL :: l2)
-   is FALSE: a comment line between `}` and `else` defeats the else-lookahead. *)
-Theorem C15_comment_before_else_refuted :
-  exists l1 l2,
-    asi (l1 ++ NL :: LineComment :: NL :: l2) <> asi (l1 ++ NL :: l2)
-    /\ asi (l1 ++ NL :: l2) = [TIf; TTrue; TLBrace; TRBrace; TElse; TLBrace; TRBrace; TSemicolon; TEof]
-    /\ asi (l1 ++ NL :: LineComment :: NL :: l2)
-       = [TIf; TTrue; TLBrace; TRBrace; TSemicolon; TElse; TLBrace; TRBrace; TSemicolon; TEof].
-Proof. exact comment_before_else_refuted_lemma. Qed.
-
-(* guarded: a comment line is irrelevant wherever the text after it does not start with `else` *)
-Theorem C15_comment_line_irrelevant_guarded : forall l1 l2,
-  is_else_next l2 = false ->
+(* ---- added line comments: a comment on a line of its own, and a comment at the end of a
+   line, never change the token stream (no guard: the else-lookahead skips comments) *)
+Theorem C15_comment_line_irrelevant : forall l1 l2,
   asi (l1 ++ NL :: LineComment :: NL :: l2) = asi (l1 ++ NL :: l2).
-Proof. exact comment_line_guarded_lemma. Qed.
+Proof. exact comment_line_lemma. Qed.
 
-(* a comment at the end of a line: same guard in general, no guard directly after a token *)
-Theorem C15_trailing_comment_irrelevant_guarded : forall l1 l2,
-  is_else_next l2 = false ->
+Theorem C15_trailing_comment_irrelevant : forall l1 l2,
   asi (l1 ++ LineComment :: NL :: l2) = asi (l1 ++ NL :: l2).
-Proof. exact trailing_comment_guarded_lemma. Qed.
+Proof. exact trailing_comment_lemma. Qed.
 
-Theorem C15_trailing_comment_after_token : forall l1 k l2,
-  asi (l1 ++ Tok k :: LineComment :: NL :: l2) = asi (l1 ++ Tok k :: NL :: l2).
-Proof. exact trailing_comment_after_token_lemma. Qed.
+Theorem C15_block_comment_irrelevant : forall l1 l2,
+  asi (l1 ++ BlockComment :: l2) = asi (l1 ++ l2).
+Proof. exact block_comment_lemma. Qed.
 
-(* ---- newline versus `;` between statements: FALSE where the statements are inside a call's
-   parentheses (a lambda body passed as an argument): the depth guard of
-   C15_explicit_semicolon_equiv is necessary. *)
-Theorem C15_newline_in_lambda_body_refuted :
-  exists l1 l2,
-    (let '(st, c) := state_at st0 false l1 (NL :: l2) in pending st = true /\ (0 < depth st)%nat /\ c = false)
-    /\ is_else_next l2 = false
-    /\ asi (l1 ++ NL :: l2) <> asi (l1 ++ Tok TSemicolon :: l2)
-    /\ asi (l1 ++ NL :: l2)
-       = [TIdentifier; TLParen; TFn; TLParen; TIdentifier; TRParen; TLBrace; TIdentifier; TIdentifier;
-          TRBrace; TRParen; TSemicolon; TEof].
-Proof. exact newline_in_lambda_body_refuted_lemma. Qed.
+(* ---- blocks inside ( and [: `{` restarts the depth at 0 and its `}` restores the outer depth,
+   so the guard `depth st = 0` of C15_explicit_semicolon_equiv holds between the statements of
+   a lambda body passed as an argument (instance: C15_nonvacuous below) *)
+Theorem C15_brace_resets_depth : forall st,
+  depth (after_tok st TLBrace) = 0%nat
+  /\ stack (after_tok st TLBrace) = depth st :: stack st
+  /\ depth (after_tok (after_tok st TLBrace) TRBrace) = depth st
+  /\ stack (after_tok (after_tok st TLBrace) TRBrace) = stack st.
+Proof. exact brace_resets_depth. Qed.
 
 (* "++" / "--" are single tokens exactly after a statement-ending token *)
 Theorem C15_plusplus_needs_pending : forall st,
@@ -116,9 +103,21 @@ Example C15_nonvacuous :
   (* `let x = f(1)` NL `x++` : state before the NL is pending, depth 0 *)
   (let l1 := [Tok TLet; Blank; Tok TIdentifier; Tok TEq; Tok TIdentifier; Tok TLParen; Tok TInt; Tok TRParen] in
    let l2 := [Tok TIdentifier; Tok TPlusPlus] in
-   state_at st0 false l1 (NL :: l2) = ({| pending := true; depth := 0%nat |}, false)
+   state_at st0 false l1 (NL :: l2) = ({| pending := true; depth := 0%nat; stack := [] |}, false)
    /\ asi (l1 ++ NL :: l2)
       = [TLet; TIdentifier; TEq; TIdentifier; TLParen; TInt; TRParen; TSemicolon; TIdentifier; TPlusPlus; TSemicolon; TEof])
+  (* f(fn(x) { a NL b }) : between a and b the lexer is pending at depth 0 (outer depth 1 saved),
+     the newline separates the statements exactly like `;`, and `}` NL `// c` NL `else` gets no `;` *)
+  /\ (let l1 := [Tok TIdentifier; Tok TLParen; Tok TFn; Tok TLParen; Tok TIdentifier; Tok TRParen; Blank; Tok TLBrace;
+                 Blank; Tok TIdentifier] in
+      let l2 := [Blank; Tok TIdentifier; Blank; Tok TRBrace; Tok TRParen] in
+      state_at st0 false l1 (NL :: l2) = ({| pending := true; depth := 0%nat; stack := [1%nat] |}, false)
+      /\ asi (l1 ++ NL :: l2) = asi (l1 ++ Tok TSemicolon :: l2)
+      /\ asi (l1 ++ NL :: l2)
+         = [TIdentifier; TLParen; TFn; TLParen; TIdentifier; TRParen; TLBrace; TIdentifier; TSemicolon; TIdentifier;
+            TRBrace; TRParen; TSemicolon; TEof])
+  /\ asi [Tok TIf; Blank; Tok TTrue; Blank; Tok TLBrace; Tok TRBrace; NL; LineComment; NL; Tok TElse; Blank; Tok TLBrace; Tok TRBrace]
+     = [TIf; TTrue; TLBrace; TRBrace; TElse; TLBrace; TRBrace; TSemicolon; TEof]
   /\ lex_int [48; 120; 70; 95; 102] = Some 255%N              (* 0xF_f *)
   /\ lex_int [49; 95; 48; 48; 48] = Some 1000%N                (* 1_000 *)
   /\ lex_int [48; 98; 49; 50] = None                           (* 0b12 is not one literal *)
